@@ -201,7 +201,7 @@ func runOneHarness(sh *Shared, h *ssa.Function, cfg RunConfig, solvers []string,
 func loadProgram(dir, pattern, tags string) (*Shared, []*ssa.Function, error) {
 	env := append(os.Environ(), "GOFLAGS=-mod=mod", "GOPROXY=off", "GOTOOLCHAIN=local")
 	// roots: harness package + every ibc-go package in its import closure (so their bodies are available)
-	cmd := exec.Command("go", "list", "-tags", tags, "-deps", "-f", "{{.ImportPath}}", pattern)
+	cmd := exec.Command("go", "list", "-tags", tags, "-deps", "-f", "{{.ImportPath}}", pattern, "verifharness/models")
 	cmd.Dir = dir
 	cmd.Env = env
 	outb, err := cmd.Output()
@@ -212,8 +212,13 @@ func loadProgram(dir, pattern, tags string) (*Shared, []*ssa.Function, error) {
 		}
 		return nil, nil, fmt.Errorf("go list: %v %s", err, msg)
 	}
-	roots := []string{pattern}
+	roots := []string{pattern} // (the models package, which carries the //verif:model redirections, is always among the deps)
+	seenRoot := map[string]bool{}
 	for _, l := range strings.Split(string(outb), "\n") {
+		if seenRoot[l] {
+			continue
+		}
+		seenRoot[l] = true
 		if strings.HasPrefix(l, "github.com/cosmos/ibc-go/") || (strings.HasPrefix(l, "verifharness/") && !strings.HasSuffix(l, strings.TrimPrefix(pattern, "."))) {
 			roots = append(roots, l)
 		}
